@@ -22,6 +22,8 @@ def jobs(tier, ws, prop='C11'):
     if prop == 'C11':
         import C16, C19, C08
         js.append(C08.close_files_job('C11'))   # F24
+        import C14
+        js += [j for j in C14.driver_mode_jobs('C11') if 'redef' in j.name]   # F25 (open)
         js += [j for j in C16.jobs(tier, ws, prop='C11') if 'fillerup' in j.name][:2]   # F22: failed fill write at enddef reported
         js += [j for j in C19.var_jobs(tier, 'C11') if 'ndims2' in j.name][:1]   # F21: failed header read never becomes success
     import C02
